@@ -27,13 +27,13 @@ invariant('Sensor', 'capacity_at_least_one', 'self._data_capacity >= 1')
 invariant('Sensor', 'has_probes', 'len(self._probes) > 0 and all(p is not None and alive(p) for p in self._probes)')
 invariant('Sensor', 'probes_distinct',
           'all(self._probes[i] is not self._probes[j] for i in range(len(self._probes)) for j in range(i + 1, len(self._probes)))')
-invariant('Sensor', 'every_probe_has_a_series',
-          'all(p in self.data and self.data[p] is not None and alive(self.data[p]) and self.data[p] is not self._probes and '
-          '    self.data[p] is not self._last_sense and self.data[p] is not self._on_sense and '
-          '    self.data[p] is not self._value_history for p in self._probes)')
+invariant('Sensor', 'every_probe_has_a_series', 'all(p in self.data for p in self._probes)')
+invariant('Sensor', 'series_are_lists_of_their_own',
+          'all(self.data[q] is not None and alive(self.data[q]) and self.data[q] is not self._probes and '
+          '    self.data[q] is not self._last_sense and self.data[q] is not self._on_sense and '
+          '    self.data[q] is not self._value_history for q in self.data)')
 invariant('Sensor', 'series_are_separate_lists',
-          'all(self.data[self._probes[i]] is not self.data[self._probes[j]] '
-          '    for i in range(len(self._probes)) for j in range(i + 1, len(self._probes)))')
+          'all(implies(q1 != q2, self.data[q1] is not self.data[q2]) for q1 in self.data for q2 in self.data)')
 invariant('Sensor', 'C19/series_aligned_and_within_capacity',
           'all(len(self.data[p]) == len(self.data[self._probes[0]]) for p in self._probes) and '
           'len(self.data[self._probes[0]]) <= self._data_capacity')
@@ -74,8 +74,7 @@ ghost_after('Sensor._collect_data', 'self._last_sense.append(new_data)',
 contract('Sensor._collect_data', props=['C19'], args={},
          ensures=dict(COLLECT_POST, exactly_the_probe_calls='trace_len() == old(trace_len()) + len(self._probes)'),
          modifies=['self._last_sense', FAMILY, '$trace'])
-S_STRUCT = {n: t for n, t in S_INVS.items() if 'aligned' not in n and n in
-            ('containers_exist', 'every_probe_has_a_series', 'series_are_separate_lists')}
+S_STRUCT = {n: t for n, t in S_INVS.items() if 'aligned' not in n}
 loop('Sensor._collect_data', 1, 'for p in self._probes',
      dict(S_STRUCT,
           values_so_far='fresh(self._last_sense) and len(self._last_sense) == k and g_ok',
